@@ -97,6 +97,9 @@ type fx struct {
 	retCount    int
 	warnings    []string
 	usedSpecs   map[string]bool
+	localRefs   []string // refs of non-escaping locals of this activation
+	curInstr    ssa.Instruction
+	ghostHavocIsUnmodelled bool
 	callOrd     map[*ssa.Call]int
 	ghosts      map[string]*Val
 	hide        map[string]bool
